@@ -22,6 +22,23 @@ def variant_envs(F):
         env = {"SIZE_CKSUM": ck, "SIZE_BODY": body, "SIZE_BUCKETS": buckets, "SIZE_IN_BYTES": nbytes, "SIZE_IN_STR_BYTES": nstr}
         for k, v in consts.items():
             env["assoc:" + k] = v
+            env["assoc:hash::public::FuzzyHashType::" + k] = v
+        # associated constants of the helper types this variant instantiates (full trait-item paths)
+        for prefix, trait, selfs in (
+            ("hash::body::FuzzyHashBodyData<", "hash::body::FuzzyHashBody", "hash::body::FuzzyHashBodyData<%d>" % body),
+            ("hash::checksum::FuzzyHashChecksumData<", "hash::checksum::FuzzyHashChecksum", "hash::checksum::FuzzyHashChecksumData<%d, %d>" % (ck, buckets)),
+            ("buckets::constrained::FuzzyHashBucketsInfo<", "buckets::constrained::FuzzyHashBucketMapper", "buckets::constrained::FuzzyHashBucketsInfo<%d>" % buckets),
+            ("length::LengthProcessingInfo<", "length::ConstrainedLengthProcessingInfo", "length::LengthProcessingInfo<%d>" % buckets),
+            ("generate::inner::Generator<", None, "generate::inner::Generator<%d, %d, %d, %d, %d>" % (ck, body, buckets, nbytes, nstr)),
+            ("generate::inner::Generator<", "generate::public::GeneratorType", "generate::inner::Generator<%d, %d, %d, %d, %d>" % (ck, body, buckets, nbytes, nstr)),
+        ):
+            cs = F.impl_consts(prefix, trait).get(selfs) or {}
+            for k, v in cs.items():
+                if v is None:
+                    continue
+                if trait:
+                    env["assoc:%s::%s" % (trait, k)] = v
+                env.setdefault("assoc:" + k, v) if trait else env.__setitem__("assoc:" + k, v)
         out.append((name, env))
     return out
 
@@ -35,7 +52,10 @@ def ceval(e, env):
     if k == "cparam":
         return env.get(e[1])
     if k == "cpath":
-        return env.get("assoc:" + e[1].rsplit("::", 1)[-1])
+        v = env.get("assoc:" + e[1])
+        if v is None:
+            v = env.get("assoc:" + e[1].rsplit("::", 1)[-1])
+        return v
     if k == "bin":
         a, b = ceval(e[2], env), ceval(e[3], env)
         if a is None or b is None:
